@@ -189,7 +189,10 @@ def run(cs, tier, run_index):
         meta["duplicate_object"] = True
         res.probe("same_array_object_twice")
     pristine_src = [np.array(x, copy=True) for x in L]
-    probs_shadow = None if probs is None else list(probs)
+    probs_shadow = None if probs is None else [float(x) for x in probs]
+    if probs is not None and cs.s("config:dup").draw(3) == 0:
+        probs = np.array(probs)  # callers also keep their prior in an array
+        meta["prior_container"] = "ndarray"
     snap = snapshot(L)
     list_id = id(L)
 
@@ -268,7 +271,7 @@ def run(cs, tier, run_index):
         else:
             if key not in pristine:
                 with pristine_library_state():
-                    o2 = call_value(op_fn(lib, fresh(), None if probs is None else list(probs), dims, op), res, op["op"] + "(pristine)")
+                    o2 = call_value(op_fn(lib, fresh(), None if probs_shadow is None else list(probs_shadow), dims, op), res, op["op"] + "(pristine)")
                 pristine[key] = o2[1] if o2[0] == "ok" else None
             if pristine[key] is not None:
                 res.checks_sim += 1
@@ -298,7 +301,7 @@ def run(cs, tier, run_index):
     glob = []
     if ppt_all or se1 or se2:
         rhos_m = [models.to_dm(x) for x in pristine_src]
-        p_m = probs if probs is not None else [1.0 / len(rhos_m)] * len(rhos_m)
+        p_m = probs_shadow if probs_shadow is not None else [1.0 / len(rhos_m)] * len(rhos_m)
         gm = models.min_error_sdp(list(p_m), rhos_m)
         if gm is not None:
             glob = [gm]
@@ -306,7 +309,7 @@ def run(cs, tier, run_index):
         else:
             res.failed("model:global_sdp")
     rng = cs.s("locc").nprng()
-    locc = locc_value(pristine_src, probs, dims, rng) if (ppt_all or se1 or se2) else None
+    locc = locc_value(pristine_src, probs_shadow, dims, rng) if (ppt_all or se1 or se2) else None
 
     def chk(inv, cond, **kw):
         res.checks_workload += 1
@@ -349,13 +352,15 @@ def run(cs, tier, run_index):
         ub = np.linalg.qr(rng.standard_normal((dims[1], dims[1])) + 1j * rng.standard_normal((dims[1], dims[1])))[0]
         u = np.kron(ua, ub)
         L2 = [(u @ x if x.ndim == 1 or x.shape[1] == 1 else u @ x @ u.conj().T) for x in pristine_src]
-        o = call_value(op_fn(lib, L2, probs, dims, {"op": "ppt", "party": 0, "form": "dual"}), res, "ppt_rotated")
+        o = call_value(op_fn(lib, L2, None if probs_shadow is None else list(probs_shadow), dims, {"op": "ppt", "party": 0, "form": "dual"}), res, "ppt_rotated")
         if o[0] == "ok":
             res.probe("local_unitary_checked")
             chk("C12.val.local_unitary", abs(o[1] - ppt_all[0]) <= TAU, rotated=o[1], original=ppt_all[0])
 
     used = len([n for n in names])
     res.nontrivial = meta["kind"] in ("kets", "bell") and used >= 2 and bool(seh_pos) and seh_pos[0] < len(names) - 1
-    res.case_key = "%016x" % mix([adigest(x) for x in pristine_src], repr(probs), json.dumps(ops, sort_keys=True))
-    res.sample = {"ensemble": meta, "prior": probs, "ops": ops, "values": {k: [round(x, 6) for x in v] for k, v in vals.items()}, "locc_achieved": locc}
+    if probs is not None and list(probs) != probs_shadow:
+        res.probe("prior_object_changed_by_library")
+    res.case_key = "%016x" % mix([adigest(x) for x in pristine_src], repr(probs_shadow), json.dumps(ops, sort_keys=True))
+    res.sample = {"ensemble": meta, "prior": probs_shadow, "ops": ops, "values": {k: [round(x, 6) for x in v] for k, v in vals.items()}, "locc_achieved": locc}
     return res
